@@ -30,7 +30,7 @@ Lemma binop_ext f dx dy s x y :
   binop ops sl1 f dx dy s x y = binop ops sl2 f dx dy s x y.
 Proof. unfold binop. rewrite same_list_ext. reflexivity. Qed.
 
-Lemma step_ext s i : step ops sl1 s i = step ops sl2 s i.
+Lemma step_ext s i : machine_step ops sl1 s i = machine_step ops sl2 s i.
 Proof.
   destruct i as [|t v|v|a b|a b|rs|t|a]; simpl; try reflexivity.
   - destruct (nth_error (regs s) a), (nth_error (regs s) b); try reflexivity. apply binop_ext.
@@ -39,10 +39,10 @@ Proof.
     rewrite collect_ext. reflexivity.
 Qed.
 
-Lemma run_ext p : forall s, run ops sl1 s p = run ops sl2 s p.
+Lemma run_ext p : forall s, machine_run ops sl1 s p = machine_run ops sl2 s p.
 Proof.
   induction p as [|i p IH]; intro s; simpl; [reflexivity|].
-  rewrite step_ext. destruct (step ops sl2 s i) as [s' e]. rewrite IH. reflexivity.
+  rewrite step_ext. destruct (machine_step ops sl2 s i) as [s' e]. rewrite IH. reflexivity.
 Qed.
 End Ext.
 
@@ -63,7 +63,7 @@ Qed.
 (* with injective addresses the machine IS the reference machine ... *)
 Lemma run_addresses_irrelevant {R} (ops : numops R) {A} (eqA : A -> A -> bool) addr :
   injective eqA addr ->
-  forall s p, run ops (sl_of eqA addr) s p = run ops sl_id s p.
+  forall s p, machine_run ops (sl_of eqA addr) s p = machine_run ops sl_id s p.
 Proof. intros Hinj s p. apply run_ext. apply sl_of_injective. exact Hinj. Qed.
 
 (* ... hence any two injective address assignments (two processes, two heap layouts, two
@@ -72,7 +72,7 @@ Proof. intros Hinj s p. apply run_ext. apply sl_of_injective. exact Hinj. Qed.
 Lemma address_parametric {R} (ops : numops R) {A B} (eqA : A -> A -> bool) (eqB : B -> B -> bool)
       (addr1 : tid -> A) (addr2 : tid -> B) :
   injective eqA addr1 -> injective eqB addr2 ->
-  forall s p, run ops (sl_of eqA addr1) s p = run ops (sl_of eqB addr2) s p.
+  forall s p, machine_run ops (sl_of eqA addr1) s p = machine_run ops (sl_of eqB addr2) s p.
 Proof.
   intros H1 H2 s p.
   rewrite (run_addresses_irrelevant ops eqA addr1 H1), (run_addresses_irrelevant ops eqB addr2 H2).
@@ -85,8 +85,8 @@ Definition collision_program : list (instr Z) :=
   [INewTape; INewTape; IVar 0 2%Z; IVar 1 3%Z; IAdd 2 3; IAdd 0 1].
 
 Lemma collision_observable :
-  snd (run Fpops (sl_of Nat.eqb (fun _ => 0)) (init (R:=Z)) collision_program)
-  <> snd (run Fpops sl_id (init (R:=Z)) collision_program).
+  snd (machine_run Fpops (sl_of Nat.eqb (fun _ => 0)) (machine_init (R:=Z)) collision_program)
+  <> snd (machine_run Fpops sl_id (machine_init (R:=Z)) collision_program).
 Proof. vm_compute. intro H. discriminate H. Qed.
 
 Lemma identity_is_injective : injective Nat.eqb (fun t : tid => t).
@@ -144,7 +144,7 @@ Proof.
 Qed.
 
 Lemma positions_append_order s i s' r h :
-  step ops sl s i = (s', ERec r) -> r_hist r = Some h -> h < length (tapes s) ->
+  machine_step ops sl s i = (s', ERec r) -> r_hist r = Some h -> h < length (tapes s) ->
   appended s s' r h.
 Proof.
   destruct i as [|t v|v|a b|a b|rs|t|a]; simpl; intros E Hh Hlt.
